@@ -71,8 +71,138 @@ class _Normaliser(ast.NodeTransformer):
         return n
 
 
+def _mentions(node, name):
+    return any(isinstance(x, ast.Name) and x.id == name for x in ast.walk(node))
+
+
+def _boolean_valued(e):
+    """syntactically certain to evaluate to a bool (so `if A: return True` + `return B` is `return A or B`)"""
+    if isinstance(e, ast.Constant):
+        return isinstance(e.value, bool)
+    if isinstance(e, ast.Compare):
+        return all(isinstance(o, (ast.Is, ast.IsNot, ast.In, ast.NotIn)) for o in e.ops)  # ==, < may be overloaded
+    if isinstance(e, ast.UnaryOp) and isinstance(e.op, ast.Not):
+        return True
+    if isinstance(e, ast.BoolOp):
+        return all(_boolean_valued(v) for v in e.values)
+    if isinstance(e, ast.Call) and isinstance(e.func, ast.Name) and e.func.id in ("isinstance", "issubclass", "hasattr", "callable", "any", "all", "bool"):
+        return True
+    return False
+
+
+def _rewrite_block(stmts):
+    """Statement-level normal forms (each an exact equivalence):
+    * `for T in IT:\n    if P: return True` + `return False`  ==  `return any(P for T in IT)` (and the negated form);
+    * `X = []` + `for T in IT: [if C:] X.append(E)`             ==  `X = [E for T in IT [if C]]`."""
+    out = []
+    i = 0
+    while i < len(stmts):
+        st = stmts[i]
+        nxt = stmts[i + 1] if i + 1 < len(stmts) else None
+        # search loop with early return of a boolean
+        if (
+            isinstance(st, ast.For)
+            and not st.orelse
+            and len(st.body) == 1
+            and isinstance(st.body[0], ast.If)
+            and not st.body[0].orelse
+            and len(st.body[0].body) == 1
+            and isinstance(st.body[0].body[0], ast.Return)
+            and isinstance(st.body[0].body[0].value, ast.Constant)
+            and isinstance(st.body[0].body[0].value.value, bool)
+            and isinstance(nxt, ast.Return)
+            and isinstance(nxt.value, ast.Constant)
+            and isinstance(nxt.value.value, bool)
+            and nxt.value.value != st.body[0].body[0].value.value
+        ):
+            gen = ast.GeneratorExp(elt=st.body[0].test, generators=[ast.comprehension(target=st.target, iter=st.iter, ifs=[], is_async=0)])
+            call = ast.Call(func=ast.Name(id="any", ctx=ast.Load()), args=[gen], keywords=[])
+            val = call if st.body[0].body[0].value.value else ast.UnaryOp(op=ast.Not(), operand=call)
+            new = ast.Return(value=val)
+            ast.copy_location(new, st)
+            ast.fix_missing_locations(new)
+            out.append(new)
+            i += 2
+            continue
+        # guard clause returning a boolean constant, followed by a return: one boolean expression
+        if (
+            isinstance(st, ast.If)
+            and not st.orelse
+            and len(st.body) == 1
+            and isinstance(st.body[0], ast.Return)
+            and isinstance(st.body[0].value, ast.Constant)
+            and isinstance(st.body[0].value.value, bool)
+            and isinstance(nxt, ast.Return)
+            and nxt.value is not None
+            and _boolean_valued(st.test)
+            and _boolean_valued(nxt.value)
+        ):
+            if st.body[0].value.value:
+                left = st.test.values if isinstance(st.test, ast.BoolOp) and isinstance(st.test.op, ast.Or) else [st.test]
+                right = nxt.value.values if isinstance(nxt.value, ast.BoolOp) and isinstance(nxt.value.op, ast.Or) else [nxt.value]
+                val = ast.BoolOp(op=ast.Or(), values=[*left, *right])
+            else:
+                neg = st.test.operand if isinstance(st.test, ast.UnaryOp) and isinstance(st.test.op, ast.Not) else ast.UnaryOp(op=ast.Not(), operand=st.test)
+                right = nxt.value.values if isinstance(nxt.value, ast.BoolOp) and isinstance(nxt.value.op, ast.And) else [nxt.value]
+                val = ast.BoolOp(op=ast.And(), values=[neg, *right])
+            new = ast.Return(value=val)
+            ast.copy_location(new, st)
+            ast.fix_missing_locations(new)
+            stmts = [*stmts[:i], new, *stmts[i + 2 :]]
+            continue  # re-examine: several guard clauses in a row fold into one expression
+        # accumulate-by-append loop
+        if (
+            isinstance(st, ast.Assign)
+            and len(st.targets) == 1
+            and isinstance(st.targets[0], ast.Name)
+            and isinstance(st.value, ast.List)
+            and not st.value.elts
+            and isinstance(nxt, ast.For)
+            and not nxt.orelse
+            and len(nxt.body) == 1
+        ):
+            x = st.targets[0].id
+            inner, conds = nxt.body[0], []
+            if isinstance(inner, ast.If) and not inner.orelse and len(inner.body) == 1:
+                conds, inner = [inner.test], inner.body[0]
+            if (
+                isinstance(inner, ast.Expr)
+                and isinstance(inner.value, ast.Call)
+                and isinstance(inner.value.func, ast.Attribute)
+                and inner.value.func.attr == "append"
+                and isinstance(inner.value.func.value, ast.Name)
+                and inner.value.func.value.id == x
+                and len(inner.value.args) == 1
+                and not inner.value.keywords
+                and not _mentions(inner.value.args[0], x)
+                and not _mentions(nxt.iter, x)
+                and not any(_mentions(c, x) for c in conds)
+            ):
+                comp = ast.ListComp(elt=inner.value.args[0], generators=[ast.comprehension(target=nxt.target, iter=nxt.iter, ifs=conds, is_async=0)])
+                new = ast.Assign(targets=st.targets, value=comp)
+                ast.copy_location(new, st)
+                ast.fix_missing_locations(new)
+                out.append(new)
+                i += 2
+                continue
+        out.append(st)
+        i += 1
+    return out
+
+
+class _BlockNormaliser(ast.NodeTransformer):
+    def generic_visit(self, node):
+        super().generic_visit(node)
+        for fld in ("body", "orelse", "finalbody"):
+            b = getattr(node, fld, None)
+            if isinstance(b, list) and b and isinstance(b[0], ast.stmt):
+                setattr(node, fld, _rewrite_block(b))
+        return node
+
+
 def _normalise(tree: ast.AST) -> None:
     _Normaliser().visit(tree)
+    _BlockNormaliser().visit(tree)
 
 
 def _collect_defs(mod: Module) -> None:
@@ -240,6 +370,21 @@ class Tree:
         if f is None:
             raise AnalysisError(f"function {path}::{qualname} not found")
         return f
+
+    def func_inlined(self, path: str, qualname: str, exclude=()):
+        """The function with the private helpers of its class / module that it calls inlined (two levels), so that
+        a rule sees the same statements whether or not a block or expression was moved into a helper.  `exclude`:
+        helper names the rule itself anchors on (they stay calls)."""
+        from . import util
+
+        key = ("inl", path, qualname, tuple(sorted(exclude)))
+        cache = self.__dict__.setdefault("_inl_cache", {})
+        if key not in cache:
+            f = self.func(path, qualname)
+            m = self.mod(path)
+            cls = m.classes.get(qualname.rsplit(".", 1)[0]) if "." in qualname else None
+            cache[key] = util.inline_helpers(f, util.helper_resolver(self, m, cls, exclude=set(exclude) | {f.name}))
+        return cache[key]
 
     def func_opt(self, path: str, qualname: str):
         m = self.by_path.get(path) or self.modules.get(path)
